@@ -490,6 +490,21 @@ def run_c19(prop, cfg, tier, seed):
             outs.append((q.returncode, q.stdout))
         if outs[0] != outs[1] and f.get("status") == "known":
             cwd_known.append("KNOWN-FINDING: property=%s %s %s" % (prop, f["id"], f["what"]))
+    # listed finding(s) of kind rerun: the same command in the same (empty) directory gives different bytes from run to run
+    for f in [f for f in findings.load()["findings"] if f.get("witness", {}).get("kind") == "rerun" and prop in f["properties"]]:
+        w = f["witness"]
+        d = os.path.join(wdc, f["id"])
+        os.makedirs(d, exist_ok=True)
+        open(os.path.join(d, "g.peg"), "w").write(w["grammar"])
+        seen = set()
+        for _ in range(int(w.get("runs", 24))):
+            q = subprocess.run([pig, "g.peg"], cwd=d, stdin=subprocess.DEVNULL, stdout=subprocess.PIPE, stderr=subprocess.PIPE, timeout=120)
+            seen.add((q.returncode, hashlib.md5(q.stdout).hexdigest()))
+            tool_runs += 1
+            if len(seen) > 1:
+                break
+        if len(seen) > 1 and f.get("status") == "known":
+            cwd_known.append("KNOWN-FINDING: property=%s %s %s" % (prop, f["id"], f["what"]))
     # ... and, for the generated grammars, on nothing else in the directory: an empty directory and one with unrelated
     # sibling files give the same bytes
     cwd_viol = []
@@ -508,6 +523,31 @@ def run_c19(prop, cfg, tier, seed):
             os.makedirs(keep, exist_ok=True)
             shutil.copyfile(os.path.join(emit, f), os.path.join(keep, f))
             cwd_viol.append(os.path.join(keep, f))
+    # ... nor on the directory the OUTPUT is written to: `pigeon -o DIR/parser.go g.peg`, run from an empty directory,
+    # writes the bytes that the same command writes to stdout, whatever else DIR holds - here another file of the same
+    # package that imports the project's own package named errors (goimports would take the import from there if it
+    # were told that the generated file lives in DIR)
+    odir_viol = []
+    proj = os.path.join(wdc, "proj")
+    os.makedirs(os.path.join(proj, "errors"), exist_ok=True)
+    os.makedirs(os.path.join(proj, "out"), exist_ok=True)
+    open(os.path.join(proj, "go.mod"), "w").write("module demo\n\ngo 1.21\n")
+    open(os.path.join(proj, "errors", "errors.go"), "w").write("package errors\n\ntype tagged struct{ msg string }\n\nfunc (e *tagged) Error() string { return \"[demo/errors] \" + e.msg }\n\n// New returns a tagged error.\nfunc New(msg string) error { return &tagged{msg} }\n")
+    open(os.path.join(proj, "out", "helper.go"), "w").write("package p\n\nimport \"demo/errors\"\n\n// ErrEmpty is reported for an empty document.\nvar ErrEmpty = errors.New(\"empty document\")\n")
+    gtext = "{\npackage p\n}\n\nDoc <- Word ( ' ' Word )* !.\n\nWord <- [a-z]+\n"
+    open(os.path.join(wdc, "odir.peg"), "w").write(gtext)
+    for fl in ([], ["-optimize-parser"], ["-support-left-recursion", "-optimize-grammar"]):
+        outp = os.path.join(proj, "out", "parser.go")
+        if os.path.exists(outp):
+            os.remove(outp)
+        a = subprocess.run([pig] + fl + [os.path.join(wdc, "odir.peg")], cwd=empty_dir, stdin=subprocess.DEVNULL, stdout=subprocess.PIPE, stderr=subprocess.PIPE, timeout=120)
+        b = subprocess.run([pig] + fl + ["-o", outp, os.path.join(wdc, "odir.peg")], cwd=empty_dir, stdin=subprocess.DEVNULL, stdout=subprocess.PIPE, stderr=subprocess.PIPE, timeout=120)
+        tool_runs += 2
+        got = open(outp, "rb").read() if os.path.exists(outp) else None
+        if a.returncode != 0 or b.returncode != 0 or got != a.stdout:
+            odir_viol.append({"flags": fl, "why": "pigeon %s -o DIR/parser.go does not write what the same command writes to stdout (exit %d / %d): the generated file depends on what else is in the output directory (DIR holds another file of the package that imports a package named errors)" % (" ".join(fl), a.returncode, b.returncode),
+                              "grammar_text": gtext,
+                              "replay_cmd": "see pv/mid_check.py run_c19 (proj/ skeleton): cd <empty dir> && pigeon %s odir.peg | sha256sum; pigeon %s -o proj/out/parser.go odir.peg && sha256sum proj/out/parser.go" % (" ".join(fl), " ".join(fl))})
     printed = []
     nviol = 0
 
@@ -534,6 +574,8 @@ def run_c19(prop, cfg, tier, seed):
         f = tool_check.keep_failure_file(prop, dict(f))
         rep("nondeterminism", {"why": "ast.Optimize gives different results on identical copies of one grammar: " + str(f.get("detail"))[:600], "file": f.get("file"),
                                "replay_cmd": "/verif/build/bin/pvopt -seed %d -n %d -det 30" % (seed, nopt)}, True)
+    for o in odir_viol:
+        rep("nondeterminism", o, True)
     for g in cwd_viol:
         rep("nondeterminism", {"grammar": g, "why": "pigeon writes different bytes for this grammar when it is run in an empty directory and in a directory that holds an unrelated .go file and a text file",
                                "replay_cmd": "mkdir -p /tmp/e /tmp/s && printf 'package main\\nimport \"os\"\\nvar _ = os.Args\\n' > /tmp/s/other.go && (cd /tmp/e && /verif/build/bin/pigeon %s | sha256sum) && (cd /tmp/s && /verif/build/bin/pigeon %s | sha256sum)" % (g, g)}, True)
@@ -556,5 +598,5 @@ def run_c19(prop, cfg, tier, seed):
                         ["byte-identity of the emitted file beyond the analysis (emission order = grammar order) is checked by execution only"], wall, nviol)
     for l in cwd_known + printed:
         print(l)
-    log("%s: %d grammars x %d builds, %d tool runs, %d violations, %d disagreements, lean_ok=%s %.1fs" % (prop, len(gl), k, tool_runs, len(viol) + len(tool_viol) + len(opt_nd) + len(hist_fail) + len(cwd_viol), len(disagree), lean_ok, wall))
+    log("%s: %d grammars x %d builds, %d tool runs, %d violations, %d disagreements, lean_ok=%s %.1fs" % (prop, len(gl), k, tool_runs, len(viol) + len(tool_viol) + len(opt_nd) + len(hist_fail) + len(cwd_viol) + len(odir_viol), len(disagree), lean_ok, wall))
     return 1 if nviol else 0
